@@ -144,6 +144,13 @@ def cholSolve (A : List (List α)) (rhs : List α) : Option (List α) :=
   | none => none
   | some (L, inv, x) => some (cholBackward L inv x M [])
 
+/-- the linear solve of the Newton step as the iteration uses it: the Cholesky solution, or four copies
+of `bad` (NaN in the Float run) where the factorisation fails -/
+def cholSolve4 (bad : α) (A : List (List α)) (rhs : List α) : List α :=
+  match cholSolve A rhs with
+  | some x => if x.length = 4 then x else List.replicate 4 bad
+  | none => List.replicate 4 bad
+
 /-- the result of the Newton iteration -/
 structure NewtonResult (α : Type) where
   lam : List α
